@@ -308,6 +308,9 @@ class BaseSetup:
         <https://docs.scipy.org/doc/scipy/reference/generated/scipy.signal.detrend.html>`_.
         """
         axis = kwargs.pop("axis", 0)
+        # `data` is the array the user passed in (shared with the algorithms already added):
+        # the keyword is accepted, but scipy must never detrend it in place
+        kwargs.pop("overwrite_data", None)
         return detrend(data, axis=axis, **kwargs)
 
     # method to detrend data
